@@ -1,6 +1,47 @@
-(* C01 — type soundness (PARTIAL).  ONLY property theorems, each closed by `exact <lemma>`. *)
-From Quiver Require Import Base Builtins BuiltinWf.
-From Quiver Require Import typed.Typed typed.BuiltinTyped.
+(* C01 — Type soundness: accepted programs never get stuck on a type error (PARTIAL).
+   ONLY property theorems, each closed by `exact <lemma>` and followed by Print Assumptions.
+   Definitions: typed/Typed.v (wt_value, vinhab/result_inhabits, obligations O1-O4, the monitor,
+   the judgement `judge`/`inhabv` extracted for ./check C01, the mirrored builtin TypeSpec table).
+   Meaning of types: Sem.v (`inhab`, C09).  VM: vm/Vm.v (C07).  Builtin models: Builtins.v (C12).
+
+   What is PROVED:
+     builtin_result_typed / builtin_only_domain_errors   every modelled pure builtin (43 rows, the
+        REGISTERED TypeSpecs of builtins/mod.rs, compared with the real registry on every run):
+        on EVERY argument a value outcome inhabits the registered result spec; on a well-typed
+        argument with well-formed binaries it never panics and its only error is InvalidArgument
+     get_typed                a well-typed tuple's field inhabits its declared field type
+     data_moves_origin / data_moves_preserve_wt   instructions other than Tuple/Function only
+        move, copy or drop values (any predicate inherited by components is preserved)
+     istype_refines           an accepted run-time type test gives membership — RELATIVE to C08's
+        statement that the run-time table is the relation is_compatible, on the fragment where
+        C09 proves is_compatible sound (cf_domain)
+     inhabv_sound_fo          the decision procedure ./check C01 applies to (real result value,
+        real inferred type) implies Sem.inhab for every value holding no function/process
+     monitor_sound            obligations O1-O4 at every step of a run => the run does not end in a
+        VM-level type failure, and a finished run's result inhabits the entry's result type
+
+   What is NOT proved — the full statement, kept here:
+
+     type_soundness : forall (src : source) (P : compiled program) (arg : value),
+        compile src = Ok P ->                                  (* the REAL compiler accepts *)
+        forall xs, match run_res P.vm (init_state P.entry [] arg false) xs with
+                   | Some (Fault f) => type_fault f = false /\ structural f = false
+                   | Some (Finished v _) => result_inhabits P.typed v P.result_type
+                   | _ => True                                 (* not finished: non-termination *)
+                   end
+
+     Missing: a model of the compiler's typing judgement (compiler.rs, compiler/{typing,pattern,
+     narrowing,spread}.rs — ~10 kLoC of flow-sensitive, provenance-keyed narrowing), i.e. the
+     proof that every program it emits satisfies `run_ok` (O1-O4 at every step).  That part is
+     DECIDED PER PROGRAM by ./check C01 on the real compiler and VM (vplib/props/c01.py); on the
+     tree as it is the statement is FALSE — known findings F1 F2 F13c01 F27 F53 F54 F58 F59 F66 F67
+     F68, each with a reproducer in known_findings.json. *)
+From Quiver Require Import Base Types Sem Rel RelProofs Builtins BuiltinWf.
+From Quiver Require vm.Vm.
+From Quiver Require Import typed.Typed typed.BuiltinTyped typed.TypedProofs.
+From Coq Require Import Arith.
+Close Scope Z_scope.
+Open Scope nat_scope.
 
 Theorem C01_builtin_result_typed : Forall result_typed builtin_sigs.
 Proof. exact builtin_result_typed_all. Qed.
@@ -9,3 +50,97 @@ Print Assumptions C01_builtin_result_typed.
 Theorem C01_builtin_only_domain_errors : Forall (only_domain_errors wf_bval) builtin_sigs.
 Proof. exact builtin_only_domain_errors_all. Qed.
 Print Assumptions C01_builtin_only_domain_errors.
+
+(* non-vacuity: the table has the 43 modelled builtins; a well-typed argument on which the
+   documented domain error IS reported *)
+Example C01_builtin_nonvacuous :
+  List.length builtin_sigs = 43 /\
+  (let a := BTup [BInt 1; BInt 0] in
+   wf_bval a /\ bspec_inhab s_int_int a /\ impl_integer_divide a = Err InvalidArgument).
+Proof. exact (conj builtin_sigs_length domain_error_witness). Qed.
+
+Theorem C01_get_typed : forall (P : tprog) t fs i v,
+  wt_value P (Bytecode.VTuple t fs) -> nth_error fs i = Some v ->
+  wt_value P v /\
+  exists info f, lookup_tuple (tp_reg P) t = Some info /\ nth_error (tfields info) i = Some f /\
+                 vinhab P v (snd f).
+Proof. exact get_typed. Qed.
+Print Assumptions C01_get_typed.
+
+Theorem C01_data_moves_origin : forall (Pvm : Bytecode.program) s x s',
+  not_constructor Pvm s -> Vm.step Pvm s x = Vm.Next s' ->
+  forall v, held s' v -> origin s x v.
+Proof. exact data_moves_origin. Qed.
+Print Assumptions C01_data_moves_origin.
+
+Theorem C01_data_moves_preserve_wt : forall (Pvm : Bytecode.program) (Qv : Bytecode.value -> Prop),
+  (forall v, atom v -> Qv v) ->
+  (forall t fs, Qv (Bytecode.VTuple t fs) -> Forall Qv fs) ->
+  (forall f caps, Qv (Bytecode.VFun f caps) -> Forall Qv caps) ->
+  forall s x s',
+    not_constructor Pvm s -> Vm.step Pvm s x = Vm.Next s' ->
+    (forall v, held s v -> Qv v) -> (forall v, Vm.x_value x = Some v -> Qv v) ->
+    forall v, held s' v -> Qv v.
+Proof. exact data_moves_preserve. Qed.
+Print Assumptions C01_data_moves_preserve_wt.
+
+(* wt_value is such a predicate: inherited by tuple fields and captures *)
+Theorem C01_wt_hereditary : forall (P : tprog),
+  (forall t fs, wt_value P (Bytecode.VTuple t fs) -> Forall (wt_value P) fs) /\
+  (forall f caps, wt_value P (Bytecode.VFun f caps) -> Forall (wt_value P) caps).
+Proof.
+  exact (fun P => conj (fun t fs H => proj2 (proj1 (wt_tuple P t fs) H))
+                       (fun f caps H => proj2 (proj2 (proj1 (wt_fun P f caps) H)))).
+Qed.
+Print Assumptions C01_wt_hereditary.
+
+Theorem C01_istype_refines : forall (R : registry) (cfg : rel_cfg) (table : nat -> nat -> bool),
+  (forall t tag, table t tag = true -> exists fuel, is_compatible_with cfg fuel R tag t = Some true) ->
+  cfg_retract cfg = true ->
+  forall t tag n e,
+    cf_domain cfg R tag = true -> cf_domain cfg R t = true ->
+    table t tag = true -> inhab R n [] e tag -> inhab R n [] e t.
+Proof. exact istype_refines. Qed.
+Print Assumptions C01_istype_refines.
+
+Theorem C01_inhabv_sound_fo : forall (Q : registry) (k cap nf n : nat) E v t,
+  first_orderb v = true -> inhabv k cap nf Q n E v t = true -> inhab Q n E v t.
+Proof. exact inhabv_sound_fo. Qed.
+Print Assumptions C01_inhabv_sound_fo.
+
+Theorem C01_monitor_sound : forall (Pvm : Bytecode.program) (P : tprog) (r0 entry : nat) arg xs,
+  run_ok Pvm P (Vm.init_state entry [] arg false) [r0] xs ->
+  match run_res Pvm (Vm.init_state entry [] arg false) xs with
+  | Some (Vm.Fault f) => type_fault f = false
+  | Some (Vm.Finished v _) => result_inhabits P v r0
+  | _ => True
+  end.
+Proof. exact monitor_sound. Qed.
+Print Assumptions C01_monitor_sound.
+
+(* ---- non-vacuity: a concrete typed program, a well-typed value, an accepted judgement, and a
+   finished monitored run.  Types: 0 = int, 1 = [int, int] (tuple 2), 2 = nil, 3 = #nil -> int;
+   function 0 = `Constant 0` (returns the integer 7). *)
+Definition ex_reg : registry :=
+  mk_reg [mk_tuple None []; mk_tuple (Some 1) []; mk_tuple None [(None, 0); (None, 0)]]
+         [TInteger; TTuple 2; TTuple 0; TCallable 2 0 2].
+Definition ex_prog : tprog := mk_tprog ex_reg [3] [3] [0] [] [].
+Definition ex_vm : Bytecode.program :=
+  {| Bytecode.p_consts := [Bytecode.CInt 7%Z];
+     Bytecode.p_funcs := [{| Bytecode.f_code := [Bytecode.IPop; Bytecode.IConstant 0]; Bytecode.f_caps := 0 |}];
+     Bytecode.p_tuples := [0; 0; 2]; Bytecode.p_nbuiltins := 0; Bytecode.p_ntypes := 4 |}.
+Definition ex_pair : Bytecode.value := Bytecode.VTuple 2 [Bytecode.VInt 1%Z; Bytecode.VInt 2%Z].
+
+Example C01_judge_nonvacuous :
+  judge ex_prog 16 4 2 ex_pair 1 = Accept /\ wt_valueb ex_prog 16 4 2 ex_pair = true /\
+  judge ex_prog 16 4 2 ex_pair 0 = Reject /\
+  judge ex_prog 16 4 2 (Bytecode.VFun 0 []) 3 = Accept.
+Proof. vm_compute. repeat split; reflexivity. Qed.
+
+Example C01_run_nonvacuous :
+  let x := {| Vm.x_value := None; Vm.x_bool := false |} in
+  run_res ex_vm (Vm.init_state 0 [] Bytecode.vnil false) [x; x; x; x] =
+    Some (Vm.Finished (Bytecode.VInt 7%Z)
+            {| Vm.stack := []; Vm.locals := []; Vm.frames := []; Vm.persistent := false |}) /\
+  fn_sig ex_prog 0 = Some (2, 0, 2).
+Proof. vm_compute. split; reflexivity. Qed.
